@@ -116,7 +116,9 @@ T_S2C = ("TLA+ specification model checked exhaustively with TLC and simulated; 
 add("C12", "tlc-binary", "Canonical (root = BCanon(contents)), MapOK, PrefixFree, RefusalRule (set refused exactly on a "
     "prefix conflict, refused calls change nothing, refused deletes would have changed nothing), AppendOnly and "
     "PastRootsReadable are model checked over all histories of set / delete / delete_subtrie; every transition is "
-    "replayed and get / exists / root hash / exception class / earlier roots compared")
+    "replayed and get / exists / root hash / exception class / earlier roots compared; generated histories of the real "
+    "code (and, thorough, the recorded executions of the repository's own BinaryTrie tests) are validated by TLC "
+    "against Trace_Binary.tla")
 add("C13", "tlc-binary", "BranchOrRefusal, BranchConfirms, BranchUnforgeable (every subset of the branch with the rest "
     "of the database), ExistsIffPrefix, TrieNodesExact, WitnessSound, WitnessSufficient, WitnessRefusal are invariants "
     "of every reachable trie; for every reachable state the real helpers are run on every key / prefix and "
@@ -125,13 +127,14 @@ add("C13", "tlc-binary", "BranchOrRefusal, BranchConfirms, BranchUnforgeable (ev
 add("C14", "tlc-smt", "IsFull (tree = FullTree(contents)), GetMatches, ClearedIsInitial, BranchVerifies and "
     "UpdateListIsPath are model checked over all histories of set / delete with blank and non-blank default for "
     "key sizes 1, 2 and 8 (thorough 32); every transition replayed: root, get, exists, branch, calc_root, returned "
-    "hashes, from_db")
+    "hashes, from_db; generated histories of the real code (and, thorough, the recorded executions of the "
+    "repository's own SparseMerkleTree tests) are validated by TLC against Trace_SMT.tla")
 add("C15", "tlc-smt", "ProofInSync and ShortestListSuffices are model checked with any tracked key, every update "
     "stream of bounded length and every truncation length of the streamed hash list, key sizes 1, 2, 8 and 32 with "
     "key pairs whose difference is a long run of ones; every transition replayed on a real SparseMerkleProof "
     "(refusal exactly when too short, proof unchanged by a refusal, value / branch / root equal to the tree's)")
 add("C16", "tlc-codec", "exhaustive enumeration by TLC of a bounded input domain (all nibble sequences up to length 3 "
-    "(thorough 5) with and without terminator, all bit strings up to length 9 (13), all byte strings of length <= 1 "
+    "(thorough 4) with and without terminator, all bit strings up to length 9 (13), all byte strings of length <= 1 "
     "(2), every (type byte, length) node shape); the round-trip laws are invariants over the TLA+ definitions and every "
     "row is run through the real encode/decode/parse functions; recorded real calls on longer random inputs are "
     "recomputed by TLC; database nodes of replayed hexary behaviours are re-classified",
